@@ -20,6 +20,7 @@ RULE = ("generated projects of 2..6 files: entry files with `out` statements, sh
 RULE += (" " + 'Also: the shared library has a relative import of its own and files of the same relative name with other types sit next to the importers (one compatible, one not); a different library under the same relative name one directory down; the same base name in two directories.')
 RULE += (" " + 'Every command-line file also exports a function, a module and a tuple; files that import another command-line file call, instantiate and read them (also through map).')
 RULE += (" " + 'In 20 % of the projects the shared library names an unloadable file (syntax error, type error, missing) in a place that is never evaluated, also one import further down.')
+RULE += (" " + 'In another 16 % of the projects the shared library fails at run time after making its bindings (division by zero, fail, index, select, cast, failing out).')
 
 KINDS = ["entry", "entry-imports-lib", "entry-imports-local-lib", "entry-imports-local-lib", "entry-imports-entry", "lib-no-out", "syntax-error", "type-error", "runtime-error",
          "failing-out", "entry-yaml", "include-user"]
